@@ -53,7 +53,28 @@ type User struct {
 	Active    bool
 	CompanyID uint
 	Company   Company
+	UpdatedAt time.Time // tracked update time: set by Update/Updates unless hooks are skipped
 	DeletedAt gorm.DeletedAt
+}
+
+// Hooks that visibly change results / SQL, so that a chain whose hooks are
+// silently skipped (or silently run) differs from its isolated replay.
+func (u *User) AfterFind(tx *gorm.DB) error {
+	u.Name = strings.ToUpper(u.Name)
+	return nil
+}
+
+func (u *User) BeforeUpdate(tx *gorm.DB) error {
+	tx.Statement.SetColumn("Active", true)
+	return nil
+}
+
+// Toy has a Go field "Name" stored in a differently named column: a Select /
+// Omit spelled with the field name resolves per model.
+type Toy struct {
+	ID      uint
+	Name    string `gorm:"column:toy_name"`
+	OwnerID uint
 }
 
 type nameAge struct {
@@ -63,7 +84,8 @@ type nameAge struct {
 
 var ddl = []string{
 	"CREATE TABLE companies (id integer PRIMARY KEY, name text)",
-	"CREATE TABLE users (id integer PRIMARY KEY, name text, age integer, active numeric, company_id integer, deleted_at datetime)",
+	"CREATE TABLE users (id integer PRIMARY KEY, name text, age integer, active numeric, company_id integer, updated_at datetime, deleted_at datetime)",
+	"CREATE TABLE toys (id integer PRIMARY KEY, toy_name text, owner_id integer)",
 }
 
 var seedSQL = []string{
@@ -71,6 +93,7 @@ var seedSQL = []string{
 	"INSERT INTO users (id, name, age, active, company_id, deleted_at) VALUES " +
 		"(1,'u1',20,1,1,NULL),(2,'u2',30,0,1,NULL),(3,'u3',40,1,2,NULL)," +
 		"(4,'u4',50,0,2,NULL),(5,'u5',20,1,1,'2030-01-02 03:04:05+00:00'),(6,'u1',60,1,2,NULL)",
+	"INSERT INTO toys (id, toy_name, owner_id) VALUES (1,'t1',1),(2,'t2',1),(3,'t3',4)",
 }
 
 // ---- execution environment: a dry-run handle and its SQLite-backed twin ------------------
@@ -154,7 +177,7 @@ func (e *env) seed() {
 // (mode "rw" only: no transaction is open then).
 func (e *env) restore() {
 	e.lite.Rec.Pause()
-	for _, s := range []string{"DELETE FROM users", "DELETE FROM companies"} {
+	for _, s := range []string{"DELETE FROM users", "DELETE FROM companies", "DELETE FROM toys"} {
 		if _, err := e.lite.SQL.Exec(s); err != nil {
 			panic("harness: " + err.Error())
 		}
@@ -225,9 +248,11 @@ func isOr(code int) bool { f := def(code).fam; return f == "or" || f == "arg-gro
 
 func col(n string) clause.Column { return clause.Column{Name: n} }
 
-func scopeAge(db *gorm.DB) *gorm.DB    { return db.Where("age > ?", 15) }
-func scopeOrder(db *gorm.DB) *gorm.DB  { return db.Order("id desc") }
-func scopeActive(db *gorm.DB) *gorm.DB { return db.Where(map[string]interface{}{"active": true}).Limit(4) }
+func scopeAge(db *gorm.DB) *gorm.DB   { return db.Where("age > ?", 15) }
+func scopeOrder(db *gorm.DB) *gorm.DB { return db.Order("id desc") }
+func scopeActive(db *gorm.DB) *gorm.DB {
+	return db.Where(map[string]interface{}{"active": true}).Limit(4)
+}
 func scopeNested(db *gorm.DB) *gorm.DB { return db.Scopes(scopeAge).Or("name = ?", "u4") }
 
 var calls = []callDef{
@@ -266,6 +291,12 @@ var calls = []callDef{
 	{text: `Select("*")`, fam: "select", merge: "", f: func(db *gorm.DB) *gorm.DB { return db.Select("*") }},
 	{text: `Select("name, age + ? as age",1)`, fam: "select", merge: "", f: func(db *gorm.DB) *gorm.DB { return db.Select("name, age + ? as age", 1) }},
 	{text: `Select("count(*) as age, name")`, fam: "select", merge: "", f: func(db *gorm.DB) *gorm.DB { return db.Select("count(*) as age, name") }},
+	// Select / Omit spelled with Go field names (resolved per model when the query is built)
+	{text: `Select("Name")`, fam: "select", merge: "", f: func(db *gorm.DB) *gorm.DB { return db.Select("Name") }},
+	{text: `Select("ID","Name")`, fam: "select", merge: "", f: func(db *gorm.DB) *gorm.DB { return db.Select("ID", "Name") }},
+	{text: `Select([Name Age])`, fam: "select", merge: "", f: func(db *gorm.DB) *gorm.DB { return db.Select(xs("Name", "Age")) }},
+	{text: `Omit("Name")`, fam: "omit", merge: "", f: func(db *gorm.DB) *gorm.DB { return db.Omit("Name") }},
+	{text: `Omit("Name","CompanyID")`, fam: "omit", merge: "", f: func(db *gorm.DB) *gorm.DB { return db.Omit("Name", "CompanyID") }},
 	// Omit
 	{text: `Omit("age")`, fam: "omit", merge: "", f: func(db *gorm.DB) *gorm.DB { return db.Omit("age") }},
 	{text: `Omit("name","active")`, fam: "omit", merge: "", f: func(db *gorm.DB) *gorm.DB { return db.Omit("name", "active") }},
@@ -377,6 +408,22 @@ var calls = []callDef{
 	{text: `Model(&User{})`, fam: "model", merge: "", f: func(db *gorm.DB) *gorm.DB { return db.Model(&User{}) }},
 	{text: `Model(&User{ID:2})`, fam: "model", merge: "", f: func(db *gorm.DB) *gorm.DB { return db.Model(&User{ID: 2}) }},
 	{text: `Model(&Company{})`, fam: "model", merge: "", f: func(db *gorm.DB) *gorm.DB { return db.Model(&Company{}) }},
+	{text: `Model(&Toy{})`, fam: "model", merge: "", f: func(db *gorm.DB) *gorm.DB { return db.Model(&Toy{}) }},
+	{text: `Table("toys")`, fam: "table", merge: "", f: func(db *gorm.DB) *gorm.DB { return db.Table("toys") }},
+	// Session{Initialized: true, ...}: returns an initialised (clone == 0) value, i.e. the
+	// chain simply continues on it; the handle / chain it is called on must not change
+	{text: `Session{Initialized,SkipHooks}`, fam: "session-init", merge: "", f: func(db *gorm.DB) *gorm.DB {
+		return db.Session(&gorm.Session{Initialized: true, SkipHooks: true})
+	}},
+	{text: `Session{Initialized,Context}`, fam: "session-init", merge: "", f: func(db *gorm.DB) *gorm.DB {
+		return db.Session(&gorm.Session{Initialized: true, Context: context.WithValue(context.Background(), ctxKey{}, "init")})
+	}},
+	{text: `Session{Initialized,PrepareStmt}`, fam: "session-init", merge: "", f: func(db *gorm.DB) *gorm.DB {
+		return db.Session(&gorm.Session{Initialized: true, PrepareStmt: true})
+	}},
+	{text: `Session{Initialized,SkipHooks,Context}`, fam: "session-init", merge: "", f: func(db *gorm.DB) *gorm.DB {
+		return db.Session(&gorm.Session{Initialized: true, SkipHooks: true, Context: context.WithValue(context.Background(), ctxKey{}, "init2")})
+	}},
 }
 
 var (
@@ -405,6 +452,9 @@ func init() {
 		}
 	}
 	sort.Strings(famNames)
+	// the generator draws a family first: Select / Omit / Model / Table / Session{Initialized} count
+	// twice (their state is shared by slice header / pointer between a handle and its chains)
+	famNames = append(famNames, "select", "omit", "model", "table", "session-init")
 	sort.Strings(mergeNames)
 	for i, f := range fins {
 		if _, dup := finIndex[f.text]; dup {
@@ -493,6 +543,43 @@ var fins = []finDef{
 		d := &User{ID: 4, Name: "s", Age: 44, CompanyID: 1}
 		return db.Save(d), d
 	}},
+	{`Find(&[]Toy)`, "find", false, false, func(db *gorm.DB) (*gorm.DB, interface{}) { var d []Toy; return db.Find(&d), &d }},
+	{`First(&Toy)`, "first", false, false, func(db *gorm.DB) (*gorm.DB, interface{}) { var d Toy; return db.First(&d), &d }},
+	{`Model(&Toy{}).Pluck("Name")`, "pluck", false, false, func(db *gorm.DB) (*gorm.DB, interface{}) {
+		var d []string
+		return db.Model(&Toy{}).Pluck("Name", &d), &d
+	}},
+	{`Table("toys").Find(&[]map)`, "find", false, false, func(db *gorm.DB) (*gorm.DB, interface{}) {
+		var d []map[string]interface{}
+		return db.Table("toys").Find(&d), &d
+	}},
+	// "request" sessions: a ready-to-use session with its own cancellable context is taken
+	// (Initialized: true), used for one query, and its context is cancelled right afterwards;
+	// whatever it was taken from must keep working with its own context
+	{`Session{Initialized,Context:req}.Find(&[]User);cancel`, "request", false, false, func(db *gorm.DB) (*gorm.DB, interface{}) {
+		ctx, cancel := context.WithCancel(context.Background())
+		defer cancel()
+		var d []User
+		return db.Session(&gorm.Session{Initialized: true, Context: ctx}).Find(&d), &d
+	}},
+	{`Session{Initialized,Context:req,SkipHooks}.First(&User);cancel`, "request", false, false, func(db *gorm.DB) (*gorm.DB, interface{}) {
+		ctx, cancel := context.WithCancel(context.Background())
+		defer cancel()
+		var d User
+		return db.Session(&gorm.Session{Initialized: true, Context: ctx, SkipHooks: true}).First(&d), &d
+	}},
+	{`Session{Initialized,Context:req}.Model(&User{}).Count;cancel`, "request", false, false, func(db *gorm.DB) (*gorm.DB, interface{}) {
+		ctx, cancel := context.WithCancel(context.Background())
+		defer cancel()
+		var n int64
+		return db.Session(&gorm.Session{Initialized: true, Context: ctx}).Model(&User{}).Count(&n), &n
+	}},
+	{`Session{Initialized,Context:req,PrepareStmt}.Find(&[]Toy);cancel`, "request", false, false, func(db *gorm.DB) (*gorm.DB, interface{}) {
+		ctx, cancel := context.WithCancel(context.Background())
+		defer cancel()
+		var d []Toy
+		return db.Session(&gorm.Session{Initialized: true, Context: ctx, PrepareStmt: true}).Find(&d), &d
+	}},
 	// the same with the table named by the finisher's own Model/Table call (a fresh value per execution)
 	{`Model(&User{}).Count`, "count", false, false, func(db *gorm.DB) (*gorm.DB, interface{}) { var n int64; return db.Model(&User{}).Count(&n), &n }},
 	{`Model(&User{}).Pluck("name")`, "pluck", false, false, func(db *gorm.DB) (*gorm.DB, interface{}) {
@@ -551,7 +638,9 @@ var hows = []howDef{
 		return both(p, func(db *gorm.DB) *gorm.DB { return db.Session(&gorm.Session{}) })
 	}},
 	{"WithContext", false, func(e *env, p pair, n int) pair {
-		return both(p, func(db *gorm.DB) *gorm.DB { return db.WithContext(context.WithValue(context.Background(), ctxKey{}, n)) })
+		return both(p, func(db *gorm.DB) *gorm.DB {
+			return db.WithContext(context.WithValue(context.Background(), ctxKey{}, n))
+		})
 	}},
 	{"Debug", false, func(e *env, p pair, n int) pair {
 		// the configured logger is logger.Discard: Debug() switches it to Info, output goes to io.Discard
@@ -616,8 +705,9 @@ func (*dryTx) QueryContext(context.Context, string, ...interface{}) (*sql.Rows, 
 	return nil, errDryPool
 }
 func (*dryTx) QueryRowContext(context.Context, string, ...interface{}) *sql.Row { return nil }
-func (*dryTx) Commit() error                                                     { return nil }
-func (*dryTx) Rollback() error                                                   { return nil }
+func (*dryTx) StmtContext(_ context.Context, stmt *sql.Stmt) *sql.Stmt          { return stmt } // makes it a gorm.Tx like *sql.Tx
+func (*dryTx) Commit() error                                                    { return nil }
+func (*dryTx) Rollback() error                                                  { return nil }
 
 var howIndex = map[string]int{}
 
@@ -796,9 +886,9 @@ func (p path) String() string {
 // ---- outcome of one finisher ----------------------------------------------------------------------
 
 type outcome struct {
-	DrySQL, DryVars, DryErr      string
+	DrySQL, DryVars, DryErr     string
 	LiteStmts, LiteRes, LiteErr string
-	rows                         int64
+	rows                        int64
 }
 
 // count labels the outcome of one finisher executed in the history (evidence
@@ -1015,6 +1105,9 @@ func runFin(e *env, p pair, fin int, mode string) outcome {
 	}
 	var sb strings.Builder
 	for _, ev := range e.lite.Rec.Statements() {
+		if ev.Stmt {
+			sb.WriteString("(prepared) ") // went through a prepared driver statement
+		}
 		sb.WriteString(ev.Text)
 		sb.WriteString(" [")
 		for i, a := range ev.Args {
@@ -1692,7 +1785,8 @@ func genHistory(rt *rapid.T) History {
 }
 
 const rule = "C06: histories (<=25 actions, <=4 reusable handles, <=6 live chains) over a tree of handles rooted at Open: " +
-	"derive a handle (chain calls + Session/WithContext/Debug/Session{...}/Begin), promote a live chain to a handle, start / extend / finish / abandon linear chains, " +
+	"derive a handle (chain calls + Session/WithContext/Debug/Session{...}/Begin), promote a live chain to a handle, start / extend / finish / abandon linear chains " +
+	"(calls include Select/Omit by field name over models whose column names differ, Model/Table targets that vary between sibling chains, Session{Initialized,SkipHooks|Context|PrepareStmt}, handles as group-condition / subquery / join arguments), " +
 	"finish directly on a handle, rebuild an already finished chain; every finisher is compared (dry-run SQL+Vars+error, SQLite statements+rows+error) with its call path replayed alone on a fresh Open, " +
 	"and every finished dry-run statement is re-read after each later action (its SQL and bound values must not change any more). " +
 	"non-trivial = two chains whose deepest common handle is not Open and holds a merging clause (WHERE/ORDER/GROUP/RETURNING/JOINS/SCOPES), that overlap in time " +
